@@ -1281,6 +1281,7 @@ protected:
         bool return_value;
         hashcode_type const h = my_hash_compare.hash( key );
         hashcode_type m = this->my_mask.load(std::memory_order_acquire);
+        __TBB_VERIF_POINT(vp_chm_mask_loaded, this, 0);
         segment_index_type grow_segment = 0;
         node *n;
         restart:
@@ -1389,6 +1390,7 @@ protected:
         node_base *const exclude_node = item_accessor.my_node;
         hashcode_type const hash = item_accessor.my_hash;
         hashcode_type mask = this->my_mask.load(std::memory_order_acquire);
+        __TBB_VERIF_POINT(vp_chm_mask_loaded, this, 1);
         do {
             // get bucket
             bucket_accessor b( this, hash & mask, /*writer=*/true );
@@ -1432,6 +1434,7 @@ protected:
         node_base *erase_node;
         hashcode_type const hash = my_hash_compare.hash(key);
         hashcode_type mask = this->my_mask.load(std::memory_order_acquire);
+        __TBB_VERIF_POINT(vp_chm_mask_loaded, this, 2);
     restart:
         {//lock scope
             // get bucket
@@ -1580,6 +1583,7 @@ protected:
     const_pointer internal_fast_find( const Key& key ) const {
         hashcode_type h = my_hash_compare.hash( key );
         hashcode_type m = this->my_mask.load(std::memory_order_acquire);
+        __TBB_VERIF_POINT(vp_chm_mask_loaded, this, 3);
         node *n;
     restart:
         __TBB_ASSERT((m&(m+1))==0, "data structure is invalid");
